@@ -54,6 +54,29 @@ func genC10(t *rapid.T) *Case {
 	return &Case{Spec: spec, Input: BStr(sb.String()), Kind: "hostile"}
 }
 
+func hasVendorPrefix(prop string) bool {
+	for _, pf := range vendorPrefixes {
+		if strings.HasPrefix(prop, pf) {
+			return true
+		}
+	}
+	return false
+}
+
+// plainStyleVocabulary: the policy's style properties that do not themselves start with a vendor
+// prefix. A rule registered under a prefixed name ("mso-width") can never match, because the
+// sanitiser strips the prefix from the declared property before the lookup; whether that is what
+// the caller meant is outside the properties, so conforming / clean documents do not use them.
+func plainStyleVocabulary(m *Model) []string {
+	var out []string
+	for _, p := range m.styleVocabulary() {
+		if !hasVendorPrefix(p) {
+			out = append(out, p)
+		}
+	}
+	return out
+}
+
 // propCandidates: the property name with any number of the documented vendor prefixes removed.
 func propCandidates(prop string) []string {
 	cands := []string{prop}
@@ -196,7 +219,7 @@ func ruleSamples(r styleRule, good bool) []string {
 func genC10Clean(t *rapid.T) *Case {
 	spec := genC10Spec(t)
 	m := BuildModel(spec)
-	vocab := m.styleVocabulary()
+	vocab := plainStyleVocabulary(m)
 	if len(vocab) == 0 {
 		vocab = []string{"color"}
 	}
